@@ -102,9 +102,9 @@ func (w *c12World) publish(ver int) {
 		// and allowed again by the second: requesters with different lists
 		// get different verdicts from partly shared intermediate results.
 		if k == 0 {
-			text += "||multi.shared.test^\n|multi.shared.test^$dnstype=A\n/^multi\\.shared/\n"
+			text += "||ads.multi-shared.com^\n||multi-shared.com^\n/^ads\\./\n"
 		} else {
-			text += "@@||multi.shared.test^\n"
+			text += "@@||ads.multi-shared.com^\n"
 		}
 		l.origin.Set(listPath(k), text)
 	}
@@ -238,7 +238,7 @@ func genHost(t *kernel.Tape, ver int, rs []*requester) (host string) {
 
 		return marker(t.Choose(markers, "marker"), v, kernel.Pick(t, tags, "tag"))
 	case 2:
-		return kernel.Pick(t, []string{"allowed.shared.test", "multi.shared.test"}, "shared-host")
+		return kernel.Pick(t, []string{"allowed.shared.test", "ads.multi-shared.com"}, "shared-host")
 	case 3:
 		return "always.shared.test"
 	case 4:
@@ -279,6 +279,18 @@ func runC12(s *kernel.Sim, cfg string) {
 	w.refresh(true, "")
 
 	if cfg == "concq" {
+		// Two requesters that share the first list and the service list but
+		// not the second list, the rest as drawn.
+		for i, rq := range rs[:2] {
+			ids := []filter.ID{listID(0), listID(1)}
+			if i == 1 {
+				ids = ids[:1]
+			}
+			rq.conf.RuleList = &filter.ConfigRuleList{IDs: ids, Enabled: true}
+			rq.conf.Parental.Enabled = true
+			rq.conf.Parental.BlockedServices = []filter.BlockedServiceID{"svc_a"}
+			rq.conf.Custom.Enabled, rq.conf.Custom.Rules = false, nil
+		}
 		s.Install()
 		runC12ConcurrentQueries(s, w, rs)
 
@@ -500,8 +512,11 @@ func runC12ConcurrentQueries(s *kernel.Sim, w *c12World, rs []*requester) {
 		task string
 	}
 	var recs []*rec
-	hosts := []string{"multi.shared.test", "multi.shared.test", "allowed.shared.test", "always.shared.test", marker(0, w.ver, "l0"), marker(0, w.ver, "svc")}
+	hosts := []string{"ads.multi-shared.com", "ads.multi-shared.com", "allowed.shared.test", "always.shared.test", marker(0, w.ver, "l0"), marker(0, w.ver, "svc")}
 	focus := kernel.Pick(t, hosts, "focus-host")
+	if t.Chance(1, 2, "focus-multi") {
+		focus = "ads.multi-shared.com"
+	}
 
 	nq := t.Range(2, 3, "query-tasks")
 	for qi := 0; qi < nq; qi++ {
